@@ -24,7 +24,7 @@ above never has to choose. -/
 theorem address_fields_exclusive (st : Settings) (s : SegmentS) (seg : Segment)
     (h : segmentRest st s = .ok seg) :
     atMostOne [seg.fixedVram.isSome, seg.fixedSymbol.isSome, seg.followsSegment.isSome, seg.vramClass.isSome] = true := by
-  unfold segmentRest at h
+  unfold segmentRest segmentTail at h
   peel h
   all_goals first
     | contradiction
